@@ -315,7 +315,8 @@ def _make_phot(cfg):
               if cfg['localbkg'] else None,
               aperture_radius=4.0, xy_bounds=cfg['xy_bounds'])
     if cfg['iterative']:
-        return IterativePSFPhotometry(model, (5, 5), maxiters=2,
+        return IterativePSFPhotometry(model, (5, 5),
+                                      maxiters=cfg.get('maxiters', 2),
                                       mode=cfg['mode'], **kw)
     return PSFPhotometry(model, (5, 5), **kw)
 
@@ -379,6 +380,40 @@ def check_psf_repeat(case, ctx):
                 raise Violation('call_history_dependent',
                                 f'call {i} after {kinds[:-1]} differs from a '
                                 f'fresh instance: {d}', call=i, kinds=kinds)
+            # model / residual images rendered from the stored results, in
+            # a drawn order of toggles, each compared with a fresh object
+            # that made only that one image
+            for j, (what, lb, ps) in enumerate(call.get('images', [])):
+                def _img(obj):
+                    pshape = None if ps is None else (ps, ps)
+                    if what == 'model':
+                        return obj.make_model_image(img.shape, psf_shape=pshape,
+                                                    include_localbkg=lb)
+                    return obj.make_residual_image(img.copy(), psf_shape=pshape,
+                                                   include_localbkg=lb)
+                fresh = _make_phot(cfg)
+                fresh(img.copy(), **copy.deepcopy(kw))
+                try:
+                    gi = _img(ph)
+                except Exception as exc:
+                    try:
+                        _img(fresh)
+                    except Exception as e2:
+                        if type(e2) is type(exc):
+                            continue
+                    raise Violation('image_call_raises',
+                                    f'{what} image {j} of call {i} raised '
+                                    f'{exc!r}; a fresh object does not')
+                ei = _img(fresh)
+                ctx.event('image_' + what)
+                if not bit_equal(np.asarray(gi), np.asarray(ei)):
+                    raise Violation(
+                        'image_history_dependent',
+                        f'make_{what}_image(include_localbkg={lb}, psf_shape='
+                        f'{ps}) #{j} after call {i} and images '
+                        f'{call["images"][:j]} differs from a fresh object '
+                        f'(max diff {float(np.nanmax(np.abs(np.asarray(gi, float) - np.asarray(ei, float)))):.3g})',
+                        call=i)
             c = _config(ph)
             if c != cfg0:
                 diff = {k: (cfg0[k], c[k]) for k in c if c[k] != cfg0[k]}
@@ -413,12 +448,16 @@ def psf_cases(draw):
                       'group_id': draw(st.one_of(st.none(), st.none(),
                                                  st.lists(st.integers(0, 2), min_size=1, max_size=4))),
                       'mask': draw(st.booleans()), 'error': draw(st.booleans()),
-                      'use_init': draw(st.sampled_from([True, True, False]))})
+                      'use_init': draw(st.sampled_from([True, True, False])),
+                      'images': [list(t) for t in draw(st.lists(st.tuples(
+                          st.sampled_from(['model', 'residual']), st.booleans(),
+                          st.sampled_from([None, 7, 11])), max_size=3))]})
     iterative = draw(st.integers(0, 3)) == 0
     mode = draw(st.sampled_from(['new', 'all']))
     grouper = draw(st.booleans()) or (iterative and mode == 'all')
     return {'scenes': [scene() for _ in range(draw(st.integers(1, 3)))],
             'config': {'fwhm': 3.0, 'grouper': grouper,
+                       'maxiters': draw(st.sampled_from([3, 1, 2])),
                        'min_sep': draw(st.sampled_from([3.0, 6.0, 12.0])),
                        'localbkg': draw(st.integers(0, 3)) == 0,
                        'xy_bounds': draw(st.sampled_from([None, None, 2.0])),
